@@ -165,12 +165,14 @@ def gen_coq_project():
             if line.startswith(("From ", "Require ")):
                 if line not in imports:
                     imports.append(line)
+            elif line.startswith("ocaml:"):
+                pass
             else:
                 names += line.split()
     ext = ("(* Extract.v -- GENERATED from extract.d/*.txt by harness/common.py; do not edit.\n"
            "   Only ExtrOcamlBasic is used: Z, N, positive, nat stay the extracted inductive types. *)\n"
            "From Coq Require Import Extraction ExtrOcamlBasic.\n" + "\n".join(imports) +
-           "\nExtraction Language OCaml.\nExtraction \"model.ml\"\n  " + "\n  ".join(names) + ".\n")
+           "\nExtraction Language OCaml.\nSeparate Extraction\n  " + "\n  ".join(names) + ".\n")
     p = os.path.join(COQ, "Extract.v")
     if not os.path.exists(p) or open(p).read() != ext:
         open(p, "w").write(ext)
@@ -195,6 +197,11 @@ def ensure_model(force=False):
         os.makedirs(BUILD, exist_ok=True)
         t0 = time.time()
         gen_coq_project()
+        for f in ("Extract.vo", "Extract.glob", "Extract.vos", "Extract.vok"):
+            try:
+                os.remove(os.path.join(COQ, f))   # extraction output is a side effect of compiling Extract.v
+            except OSError:
+                pass
         sh(["coq_makefile", "-f", "_CoqProject", "-o", "Makefile.coq"], cwd=COQ, check=True)
         rc, out, err = sh(["make", "-f", "Makefile.coq", "-k", "-j16"], cwd=COQ, timeout=3000)
         # a broken proof file must not prevent the model from being extracted
@@ -202,16 +209,28 @@ def ensure_model(force=False):
             rc2, out2, err2 = sh(["make", "-f", "Makefile.coq", "Extract.vo"], cwd=COQ, timeout=3000)
             if rc2 != 0:
                 raise RuntimeError("Coq model does not build:\n" + out2[-3000:] + err2[-3000:])
-        for f in ("model.ml", "model.mli"):
-            shutil.copy(os.path.join(COQ, f), os.path.join(BUILD, f))
+        # Separate Extraction leaves one .ml/.mli per Coq module in coq/
+        for f in os.listdir(BUILD):
+            if f.endswith((".ml", ".mli", ".cmi", ".cmx", ".o")):
+                os.remove(os.path.join(BUILD, f))
+        gen = [f for f in os.listdir(COQ) if f.endswith((".ml", ".mli"))]
+        for f in gen:
+            shutil.move(os.path.join(COQ, f), os.path.join(BUILD, f))
+        # model.ml: prelude re-exporting the extracted modules (directives `ocaml: ...` in extract.d)
+        prelude = ["(* GENERATED prelude: re-exports of the separately extracted Coq modules *)"]
+        ed = os.path.join(COQ, "extract.d")
+        for f in sorted(os.listdir(ed)):
+            for line in open(os.path.join(ed, f)):
+                if line.startswith("ocaml:"):
+                    prelude.append(line[len("ocaml:"):].strip())
+        open(os.path.join(BUILD, "model.ml"), "w").write("\n".join(prelude) + "\n")
         mls = sorted(f for f in os.listdir(os.path.join(VERIF, "ocaml")) if f.endswith(".ml"))
         for f in mls:
             shutil.copy(os.path.join(VERIF, "ocaml", f), os.path.join(BUILD, f))
-        order = ["model.mli", "model.ml", "drv_common.ml"] + \
-                [f for f in mls if f not in ("drv_common.ml", "drv_main.ml")] + ["drv_main.ml"]
-        sh(["ocamlfind", "ocamlopt", "-O3", "-w", "-a", "-o", "model_driver"] + order, cwd=BUILD, check=False)
-        if not os.path.exists(drv) or os.path.getmtime(drv) < t0:
-            sh(["ocamlfind", "ocamlopt", "-w", "-a", "-o", "model_driver"] + order, cwd=BUILD, check=True)
+        rc3, out3, err3 = sh(["ocamlfind", "ocamldep", "-sort"] + sorted(f for f in os.listdir(BUILD) if f.endswith((".ml", ".mli"))),
+                             cwd=BUILD, check=True)
+        order = [f for f in out3.split() if f != "drv_main.ml"] + ["drv_main.ml"]
+        sh(["ocamlfind", "ocamlopt", "-w", "-a", "-o", "model_driver"] + order, cwd=BUILD, check=True)
         open(stamp, "w").write(key)
         log("[model] built in %.1fs (make rc=%d)" % (time.time() - t0, rc))
         return drv
